@@ -63,7 +63,7 @@ Proof.
 Qed.
 
 Lemma same_but_trans a b c : same_but a b -> same_but b c -> same_but a c.
-Proof. intros [A1 [A2 A3]] [B1 [B2 B3]]. repeat split; congruence. Qed.
+Proof. intros [A1 [A2 [A3 A4]]] [B1 [B2 [B3 B4]]]. repeat split; congruence. Qed.
 
 (* ---------- phase 1: pops *)
 Lemma pop_flat_ok L : forall R s, PInv R s -> NoDup (map snd L) ->
@@ -101,7 +101,7 @@ Proof.
   induction ps as [|[v n] q IH]; intros R s PI H; simpl.
   - exists s. split; [reflexivity|]. split; [exact PI|]. repeat split; try reflexivity. intros _ v n [].
   - rewrite (H v n (or_introl eq_refl)).
-    set (s0 := mkR (upd (r_vn s) v (Some n)) (r_inits s) (r_isinit s) (r_isio s) (r_vgraph s) (r_prod s)).
+    set (s0 := mkR (upd (r_vn s) v (Some n)) (r_inits s) (r_isinit s) (r_isio s) (r_vgraph s) (r_prod s) (r_const s)).
     assert (P0 : PInv R s0) by (apply rename_plain_ok; [exact PI | apply (H v n); left; reflexivity]).
     destruct (IH R s0 P0) as [s1 [E [P1 [A [B [C [D [F [G K]]]]]]]]].
     { intros v' n' X. simpl. apply (H v' n'). right. exact X. }
@@ -110,6 +110,14 @@ Proof.
     + intros ND u m [X|X].
       * inversion X; subst. inversion ND; subst. rewrite G by assumption. apply upd_same.
       * inversion ND; subst. apply K; assumption.
+Qed.
+
+Lemma r_renames_const ps : forall s, r_const (fst (r_renames ps s)) = r_const s.
+Proof.
+  induction ps as [|[v n] q IH]; intros s; simpl; [reflexivity|].
+  destruct (r_isinit s v).
+  - destruct (set_vname v n (r_vn s) (r_inits s)) as [[vn' inits']|e]; [rewrite IH|]; reflexivity.
+  - rewrite IH. reflexivity.
 Qed.
 
 (* ---------- phase 3: re-adds *)
